@@ -183,7 +183,7 @@ def post(lines, verdicts):
     if len(lines) < 5000:          # a replay
         return out
     kinds, ok_frames, typed_ok, typed_err, tablets_ok, small_ok, tuple_ok, tuple_err = {}, 0, 0, 0, 0, 0, 0, 0
-    q2_ok = q2_err = p_ok = p_err = 0
+    q2_ok = q2_err = p_ok = p_err = comp_other = hwm_seen = 0
     for ln in lines:
         k = ln.split(" ", 1)[0]
         kinds[k] = kinds.get(k, 0) + 1
@@ -192,13 +192,16 @@ def post(lines, verdicts):
         typed_ok += " tv=ok" in impl
         typed_err += " tv=err@" in impl
         tablets_ok += " tb=ok:" in impl
+        f3 = ln.split(" ", 3)
+        comp_other += k in ("M", "U", "F", "S", "V") and len(f3) > 2 and f3[2][-1:] in ("l", "s")
+        hwm_seen += bool(re.search(r" h=\d+", impl))
         q2_ok += " q2=ok:" in impl
         q2_err += " q2=err:" in impl
         p_ok += k == "P" and " ok Rows(" in impl
         p_err += k == "P" and impl.lstrip().startswith("err ")
         tuple_ok += bool(re.search(r" tv=\S*,t[1-5]:ok", impl))
         tuple_err += bool(re.search(r" tv=\S*,t[1-5]:err@", impl))
-        small_ok += impl.rstrip().endswith("s=ok")
+        small_ok += " s=ok" in impl
     scale = min(1.0, len(lines) / 100000.0)
     for k, floor in KIND_FLOORS.items():
         need = floor if k in ("K", "S", "V") else int(floor * scale)
@@ -209,6 +212,8 @@ def post(lines, verdicts):
                             ("tablet payloads accepted", tablets_ok, int(200 * scale)),
                             ("second frame read ok", q2_ok, int(1000 * scale)), ("second frame read refused", q2_err, int(500 * scale)),
                             ("rows behind cached metadata accepted", p_ok, int(500 * scale)), ("rows behind cached metadata refused", p_err, int(500 * scale)),
+                            ("damaged bodies behind a valid compression layer (kinds M U F S V)", comp_other, int(2000 * scale)),
+                            ("stack high-water marks measured", hwm_seen, int(0.95 * len(lines))),
                             ("typed tuple targets ok", tuple_ok, int(200 * scale)), ("typed tuple targets failing", tuple_err, int(50 * scale)),
                             ("second run on the small stack", small_ok, int(0.95 * len(lines)))):
         if got < need:
@@ -223,13 +228,19 @@ def extra_coverage(lines, verdicts):
     kinds = {}
     outcomes = {}
     maxreq = 0
-    sub = {"q2_ok": 0, "q2_err": 0, "P_accepted": 0, "P_refused": 0, "typed_rows_ok": 0, "typed_rows_failing": 0,
+    max_hwm = 0
+    sub = {"compressed_M_U_F_S_V": 0, "q2_ok": 0, "q2_err": 0, "P_accepted": 0, "P_refused": 0, "typed_rows_ok": 0, "typed_rows_failing": 0,
            "tablets_accepted": 0, "frames_accepted": 0}
     tuples = {}
     for ln in lines:
         k0 = ln.split(" ", 1)[0]
         kinds[k0] = kinds.get(k0, 0) + 1
         raw = ln.split("|", 1)[1] if "|" in ln else ""
+        f3 = ln.split(" ", 3)
+        sub["compressed_M_U_F_S_V"] += k0 in ("M", "U", "F", "S", "V") and len(f3) > 2 and f3[2][-1:] in ("l", "s")
+        mh = re.search(r" h=(\d+)", raw)
+        if mh:
+            max_hwm = max(max_hwm, int(mh.group(1)))
         sub["q2_ok"] += " q2=ok:" in raw
         sub["q2_err"] += " q2=err:" in raw
         sub["P_accepted"] += k0 == "P" and " ok Rows(" in raw
@@ -267,6 +278,7 @@ def extra_coverage(lines, verdicts):
         "known_class_hits": classes,
         "impl_outcome_histogram": dict(sorted(outcomes.items(), key=lambda kv: -kv[1])[:60]),
         "largest_single_allocation_request_observed": maxreq,
+        "largest_stack_high_water_mark_observed": max_hwm,
         "census": {"alloc_sites": sum(len(v) for v in c["alloc_sites"].values()),
                    "recursive_functions": sum(len(v) for v in c["recursive"].values()),
                    "mismatches": census_diff()},
@@ -293,8 +305,10 @@ SPEC = {
              "Q = two consecutive frames (whole / cut / first one mutated) delivered by a custom AsyncRead in chunks "
              "(1 byte at a time, 8+1+1+3, 9+1+rest, all at once, random 1..5, random 1..64; the schedule is reported as sch=), the first decoded, then a second read_response_frame on the same reader; "
              "both reads compared with the extracted model of the chunked reader (read_frame_chunked / reader_after on the chunks of that schedule), which must also agree with the all-at-once read_frame; "
-             "V = 138 fixed Rows frames with one typed cell whose element count is inflated (list / set / map / nested list: 2^16, 2^24, i32::MAX with 0, 1, 8 elements behind, the count cut; an honest 2^10 for contrast; vectors with 65535 declared dimensions), both decoder generations; "
+             "V = 138 fixed Rows frames (276 with their compressed variants) with one typed cell whose element count is inflated (list / set / map / nested list: 2^16, 2^24, i32::MAX with 0, 1, 8 elements behind, the count cut; an honest 2^10 for contrast; vectors with 65535 declared dimensions), both decoder generations; "
              "F = mutations derived from the extracted encoder: one length / count / id / flag field of the AST re-encoded with a boundary value or off by one. "
+             "Every V case and one in eight of M, U, F, S also with the damaged body behind a valid LZ4 / Snappy layer (same kind letter, mode l / s). "
+             "Every case is decoded a second time on a 512 KiB stack whose high-water mark is measured by fill pattern (h=) and compared with the prediction from the model's recursion depth (16 KiB + 1.5 KiB per level, C08_stack). "
              "On every accepted frame also: "
              "typed rows (rows_iter::<Row>() over CqlValue, position of the first failure; and the first of five typed tuple targets "
              "whose type_check accepts the columns) and the tablet routing payload "
@@ -311,6 +325,7 @@ SPEC = {
         "custom-type strings with non-ASCII characters are not modelled (char::is_alphanumeric / is_whitespace tables): the model declines, the tie then only checks that the implementation neither crashes nor over-allocates",
         "absence of panics in the Rust code for ALL inputs is not a theorem; it is supported by the tie",
         "'does not terminate' is judged in CPU time of the child (30 s quick / 60 s thorough on one input, alone in a fresh child); a wall-clock stall with less CPU time is counted not-run (env-stall)",
+        "the stack prediction's two constants (16 KiB base, 1.5 KiB per level of type nesting) are measured on the debug-profile harness, not derived from the code; C08_stack is about the prediction",
         "C08_alloc is proved of the model's ghost counter; the driver APPLIES that bound (largest request) and twice it (total; no theorem) to the allocator's measurements",
     ],
     "post": post,
